@@ -103,54 +103,162 @@ theorem heapPush_sorted (e : Hit) (l : List Hit) (hl : l.Pairwise (fun a b => he
         · exact h1
       · exact hl.1 x hx
 
-/-! ### what the schedule may drop -/
+/-! ### what the schedule may do to the pending postings -/
 
-theorem dropMasked_split (thr : Rat) (mask : List Bool) (m : List Posting) :
-    ∃ d, (dropMasked thr mask m ++ d).Perm m ∧ (∀ p ∈ d, p.score ≤ thr) ∧
-      (dropMasked thr mask m).Sublist m ∧ d.Sublist m := by
+/-- `q` is the posting `p`, possibly with a lowered score — lowered only if `p` was at or below the
+    (non-zero) threshold. -/
+def DescOf (thr : Rat) (q p : Posting) : Prop :=
+  q.doc = p.doc ∧ q.orig = p.orig ∧ q.newBlock = p.newBlock ∧ q.score ≤ p.score ∧
+    (q = p ∨ (p.score ≤ thr ∧ thr ≠ 0))
+
+/-- `m'` (kept, possibly lowered) and `d` (dropped) account for the pending list `m` after a call with
+    threshold `thr` that abides by the contract. -/
+structure Shrinks (thr : Rat) (m' d m : List Posting) : Prop where
+  perm : (m'.map Posting.origP ++ d.map Posting.origP).Perm (m.map Posting.origP)
+  docs : (m'.map (·.doc)).Sublist (m.map (·.doc))
+  kept : ∀ q ∈ m', ∃ p ∈ m, DescOf thr q p
+  dropped : ∀ q ∈ d, ∃ p ∈ m, DescOf thr q p ∧ p.score ≤ thr ∧ thr ≠ 0
+
+theorem DescOf.refl (thr : Rat) (p : Posting) : DescOf thr p p :=
+  ⟨rfl, rfl, rfl, Rat.le_refl, Or.inl rfl⟩
+
+theorem DescOf.origP {thr : Rat} {q p : Posting} (h : DescOf thr q p) : q.origP = p.origP := by
+  obtain ⟨h1, h2, h3, _, _⟩ := h
+  cases q; cases p; simp_all [Posting.origP]
+
+theorem DescOf.trans {thr : Rat} {q p1 p : Posting} (h1 : DescOf thr q p1) (h2 : DescOf thr p1 p) :
+    DescOf thr q p := by
+  obtain ⟨a1, a2, a3, a4, a5⟩ := h1
+  obtain ⟨b1, b2, b3, b4, b5⟩ := h2
+  refine ⟨a1.trans b1, a2.trans b2, a3.trans b3, Rat.le_trans a4 b4, ?_⟩
+  rcases a5 with rfl | ⟨c1, c2⟩
+  · exact b5
+  · right
+    rcases b5 with rfl | b5
+    · exact ⟨c1, c2⟩
+    · exact b5
+
+theorem Shrinks.refl (thr : Rat) (m : List Posting) : Shrinks thr m [] m :=
+  ⟨by simp, List.Sublist.refl _, fun q hq => ⟨q, hq, DescOf.refl thr q⟩, fun q hq => by simp at hq⟩
+
+theorem Shrinks.trans {thr : Rat} {m2 d2 m1 d1 m : List Posting}
+    (h2 : Shrinks thr m2 d2 m1) (h1 : Shrinks thr m1 d1 m) : Shrinks thr m2 (d1 ++ d2) m := by
+  refine ⟨?_, h2.docs.trans h1.docs, ?_, ?_⟩
+  · have := h2.perm.append_right (d1.map Posting.origP)
+    refine List.Perm.trans ?_ (this.trans h1.perm)
+    simp only [List.map_append, List.append_assoc]
+    exact List.Perm.append_left _ List.perm_append_comm
+  · intro q hq
+    obtain ⟨p1, hp1, hd1⟩ := h2.kept q hq
+    obtain ⟨p, hp, hd⟩ := h1.kept p1 hp1
+    exact ⟨p, hp, hd1.trans hd⟩
+  · intro q hq
+    rcases List.mem_append.mp hq with hq | hq
+    · exact h1.dropped q hq
+    · obtain ⟨p1, hp1, hd1, hle, hne⟩ := h2.dropped q hq
+      obtain ⟨p, hp, hd⟩ := h1.kept p1 hp1
+      refine ⟨p, hp, hd1.trans hd, ?_, hne⟩
+      rcases hd.2.2.2.2 with rfl | ⟨h, _⟩
+      · exact hle
+      · exact h
+
+theorem dropMasked_shrinks (thr : Rat) (mask : List Wish) (m : List Posting) :
+    ∃ d, Shrinks thr (dropMasked thr mask m) d m := by
   induction m generalizing mask with
-  | nil => exact ⟨[], by cases mask <;> simp [dropMasked]⟩
+  | nil => exact ⟨[], by cases mask <;> simpa [dropMasked] using Shrinks.refl thr []⟩
   | cons p ps ih =>
     cases mask with
-    | nil => exact ⟨[], by simp [dropMasked]⟩
-    | cons b bs =>
-      obtain ⟨d, hp, hd, hs, hds⟩ := ih bs
+    | nil => exact ⟨[], by simpa [dropMasked] using Shrinks.refl thr (p :: ps)⟩
+    | cons w ws =>
+      obtain ⟨d, hs⟩ := ih ws
+      -- keeping a descendant `q` of `p` in front
+      have keepq : ∀ q, DescOf thr q p → Shrinks thr (q :: dropMasked thr ws ps) d (p :: ps) := by
+        intro q hq
+        refine ⟨?_, ?_, ?_, ?_⟩
+        · simp only [List.map_cons, List.cons_append, hq.origP]
+          exact List.Perm.cons _ hs.perm
+        · simp only [List.map_cons, hq.1]
+          exact hs.docs.cons_cons _
+        · intro x hx
+          rcases List.mem_cons.mp hx with rfl | hx
+          · exact ⟨p, by simp, hq⟩
+          · obtain ⟨y, hy, hd⟩ := hs.kept x hx
+            exact ⟨y, List.mem_cons_of_mem _ hy, hd⟩
+        · intro x hx
+          obtain ⟨y, hy, hd⟩ := hs.dropped x hx
+          exact ⟨y, List.mem_cons_of_mem _ hy, hd⟩
       simp only [dropMasked]
       split
       · next hb =>
-        refine ⟨p :: d, ?_, ?_, hs.cons p, hds.cons_cons p⟩
-        · exact List.perm_middle.trans (List.Perm.cons p hp)
-        · intro q hq
-          rcases List.mem_cons.mp hq with rfl | hq
-          · simp only [Bool.and_eq_true, decide_eq_true_eq] at hb; exact hb.2
-          · exact hd q hq
-      · exact ⟨d, List.Perm.cons p hp, hd, hs.cons_cons p, hds.cons p⟩
+        simp only [Bool.and_eq_true, decide_eq_true_eq, bne_iff_ne, ne_eq] at hb
+        cases w with
+        | keep => exact ⟨d, keepq p (DescOf.refl thr p)⟩
+        | drop =>
+          refine ⟨p :: d, ?_, hs.docs.cons _, ?_, ?_⟩
+          · simp only [List.map_cons]
+            exact List.perm_middle.trans (List.Perm.cons _ hs.perm)
+          · intro x hx
+            obtain ⟨y, hy, hd⟩ := hs.kept x hx
+            exact ⟨y, List.mem_cons_of_mem _ hy, hd⟩
+          · intro x hx
+            rcases List.mem_cons.mp hx with rfl | hx
+            · exact ⟨x, by simp, DescOf.refl thr x, hb.2, hb.1⟩
+            · obtain ⟨y, hy, hd⟩ := hs.dropped x hx
+              exact ⟨y, List.mem_cons_of_mem _ hy, hd⟩
+        | lower s =>
+          dsimp only
+          split
+          · next hsle =>
+            exact ⟨d, keepq { p with score := s } ⟨rfl, rfl, rfl, hsle, Or.inr ⟨hb.2, hb.1⟩⟩⟩
+          · exact ⟨d, keepq p (DescOf.refl thr p)⟩
+      · exact ⟨d, keepq p (DescOf.refl thr p)⟩
 
-theorem skipDrop_split (thr : Rat) (n : Nat) (m : List Posting) :
-    ∃ d, (d ++ (skipDrop thr n m).1) = m ∧ (∀ p ∈ d, p.score ≤ thr) := by
+theorem skipDrop_shrinks (thr : Rat) (hthr : thr ≠ 0) (n : Nat) (m : List Posting) :
+    ∃ d, Shrinks thr (skipDrop thr n m).1 d m := by
   induction n generalizing m with
-  | zero => exact ⟨[], by simp [skipDrop]⟩
+  | zero => exact ⟨[], by simpa [skipDrop] using Shrinks.refl thr m⟩
   | succ n ih =>
     cases m with
-    | nil => exact ⟨[], by simp [skipDrop]⟩
+    | nil => exact ⟨[], by simpa [skipDrop] using Shrinks.refl thr []⟩
     | cons p ps =>
       simp only [skipDrop]
       split
       · next hp =>
-        obtain ⟨d, hd, hs⟩ := ih ps
-        refine ⟨p :: d, by simp [hd], ?_⟩
-        intro q hq
-        rcases List.mem_cons.mp hq with rfl | hq
-        · exact hp
-        · exact hs q hq
-      · exact ⟨[], by simp⟩
+        obtain ⟨d, hs⟩ := ih ps
+        refine ⟨p :: d, ?_, hs.docs.cons _, ?_, ?_⟩
+        · simp only [List.map_cons]
+          exact List.perm_middle.trans (List.Perm.cons _ hs.perm)
+        · intro x hx
+          obtain ⟨y, hy, hd⟩ := hs.kept x hx
+          exact ⟨y, List.mem_cons_of_mem _ hy, hd⟩
+        · intro x hx
+          rcases List.mem_cons.mp hx with rfl | hx
+          · exact ⟨x, by simp, DescOf.refl thr x, hp, hthr⟩
+          · obtain ⟨y, hy, hd⟩ := hs.dropped x hx
+            exact ⟨y, List.mem_cons_of_mem _ hy, hd⟩
+      · exact ⟨[], Shrinks.refl thr _⟩
 
 /-! ### the invariant of the collection loop (DESIGN.md Appendix E) -/
+
+/-- The heap is full and `b` is a lower bound of every score on it. -/
+structure FullBound (k : Nat) (items : List Hit) (b : Rat) : Prop where
+  full : items.length = k
+  le : ∀ h ∈ items, b ≤ h.score
+
+theorem FullBound.mono {k : Nat} {items : List Hit} {a b : Rat} (h : FullBound k items b) (hab : a ≤ b) :
+    FullBound k items a :=
+  ⟨h.full, fun x hx => Rat.le_trans hab (h.le x hx)⟩
 
 /-- `thr` is a threshold the collector may hand to the matcher: 0, or (heap full) a lower bound of
     every score on the heap. -/
 def ThrOK (k : Nat) (items : List Hit) (thr : Rat) : Prop :=
-  thr = 0 ∨ (items.length = k ∧ ∀ h ∈ items, thr ≤ h.score)
+  thr = 0 ∨ FullBound k items thr
+
+theorem ThrOK.mono {k : Nat} {items items' : List Hit} {thr : Rat} (h : ThrOK k items thr)
+    (hm : ∀ b, FullBound k items b → FullBound k items' b) : ThrOK k items' thr := by
+  rcases h with h | h
+  · exact Or.inl h
+  · exact Or.inr (hm _ h)
 
 /-- The heap is sorted and holds at most `k` hits, all with document numbers below everything still
     to come (`fut`); every hit lost so far (dropped by the schedule or refused/evicted by the
@@ -165,21 +273,42 @@ theorem Inv.mono {k : Nat} {fut fut' : List Nat} {st : TopState} {losers : List 
     (h : Inv k fut st losers) (hsub : ∀ g ∈ fut', g ∈ fut) : Inv k fut' st losers :=
   ⟨h.sorted, h.len, fun x hx g hg => h.docs x hx g (hsub g hg), h.beat⟩
 
-/-- Hits dropped under a legal threshold join the losers. -/
-theorem Inv.absorb {k : Nat} {fut : List Nat} {st : TopState} {losers : List Hit} {thr : Rat}
-    (h : Inv k fut st losers) (hthr : ThrOK k st.items thr) (d : List Hit)
-    (hd : ∀ x ∈ d, x.score ≤ thr ∧ 0 < x.score ∧ x.doc ∈ fut) : Inv k fut st (losers ++ d) := by
+theorem Inv.congr {k : Nat} {fut : List Nat} {st st' : TopState} {losers : List Hit}
+    (h : Inv k fut st losers) (he : st'.items = st.items) : Inv k fut st' losers := by
+  refine ⟨?_, ?_, ?_, ?_⟩ <;> rw [he]
+  · exact h.sorted
+  · exact h.len
+  · exact h.docs
+  · exact h.beat
+
+/-- Hits whose score is a lower bound of a full heap, and that come later in document order, join
+    the losers. -/
+theorem Inv.absorb {k : Nat} {fut : List Nat} {st : TopState} {losers : List Hit}
+    (h : Inv k fut st losers) (d : List Hit)
+    (hd : ∀ x ∈ d, FullBound k st.items x.score ∧ x.doc ∈ fut) : Inv k fut st (losers ++ d) := by
   refine ⟨h.sorted, h.len, h.docs, ?_⟩
   intro l hl
   rcases List.mem_append.mp hl with hl | hl
   · exact h.beat l hl
-  · obtain ⟨h1, h2, h3⟩ := hd l hl
-    rcases hthr with h0 | ⟨hfull, hall⟩
-    · subst h0; grind
-    · refine ⟨hfull, fun x hx => ?_⟩
-      have hx1 := hall x hx
-      have hx2 := h.docs x hx l.doc h3
-      simp [rankLe]; grind
+  · obtain ⟨⟨hfull, hall⟩, h3⟩ := hd l hl
+    refine ⟨hfull, fun x hx => ?_⟩
+    have hx1 := hall x hx
+    have hx2 := h.docs x hx l.doc h3
+    simp [rankLe]; grind
+
+/-- A hit at or below a lower bound of a full heap is refused: only `total` moves. -/
+theorem collect_refuse {k : Nat} (hk : 1 ≤ k) (st : TopState) (e : Hit) {b : Rat}
+    (hb : FullBound k st.items b) (he : e.score ≤ b) :
+    st.collect k e = .ok { st with total := st.total + 1 } := by
+  unfold TopState.collect
+  have hnlt : ¬ st.items.length < k := by have := hb.full; omega
+  simp only [hnlt, if_false]
+  split
+  · next h => have := hb.full; simp [h] at this; omega
+  · next m rest h =>
+    have hm : ¬ m.score < e.score := by
+      have := hb.le m (by simp [h]); grind
+    simp [hm]
 
 /-- One `TopCollector._collect` on the next hit in document order. -/
 theorem collect_inv {k : Nat} (hk : 1 ≤ k) {fut : List Nat} {st : TopState} {losers : List Hit} (e : Hit)
@@ -188,7 +317,7 @@ theorem collect_inv {k : Nat} (hk : 1 ≤ k) {fut : List Nat} {st : TopState} {l
     ∃ st' losers', st.collect k e = .ok st' ∧ Inv k fut st' losers' ∧
       (st'.items ++ losers').Perm (e :: (st.items ++ losers)) ∧
       ThrOK k st'.items st'.minscore ∧
-      (∀ thr, ThrOK k st.items thr → ThrOK k st'.items thr) := by
+      (∀ b, FullBound k st.items b → FullBound k st'.items b) := by
   unfold TopState.collect
   by_cases hlt : st.items.length < k
   · -- the heap is not full: push
@@ -206,10 +335,9 @@ theorem collect_inv {k : Nat} (hk : 1 ≤ k) {fut : List Nat} {st : TopState} {l
     · rcases hmin with h0 | ⟨hf, _⟩
       · exact Or.inl h0
       · omega
-    · intro thr hthr
-      rcases hthr with h0 | ⟨hf, _⟩
-      · exact Or.inl h0
-      · omega
+    · intro b hb
+      have := hb.full
+      omega
   · simp only [hlt, if_false]
     have hfull : st.items.length = k := by have := hinv.len; omega
     match hitems : st.items with
@@ -260,13 +388,12 @@ theorem collect_inv {k : Nat} (hk : 1 ≤ k) {fut : List Nat} {st : TopState} {l
             · exact Rat.le_refl
             · have := List.rel_of_pairwise_cons hps hy
               simp [heapLe] at this; grind
-          · intro thr hthr
-            rcases hthr with h0 | ⟨_, hall⟩
-            · exact Or.inl h0
-            · refine Or.inr ⟨hlen, fun y hy => ?_⟩
-              rcases hmem y hy with rfl | hy
-              · have := hall m (by simp); grind
-              · exact hall y (List.mem_cons_of_mem _ hy)
+          · intro b hb
+            obtain ⟨_, hall⟩ := hb
+            refine ⟨hlen, fun y hy => ?_⟩
+            rcases hmem y hy with rfl | hy
+            · have := hall m (by simp); grind
+            · exact hall y (List.mem_cons_of_mem _ hy)
       · -- refused
         simp only [hadm, if_false]
         refine ⟨_, e :: losers, rfl, ⟨?_, ?_, ?_, ?_⟩, ?_, ?_, ?_⟩
@@ -290,34 +417,29 @@ theorem collect_inv {k : Nat} (hk : 1 ≤ k) {fut : List Nat} {st : TopState} {l
         · simpa [hitems] using hmin
         · intro thr hthr; simpa [hitems] using hthr
 
-/-! ### the two optimisation phases only ever drop what the contract allows -/
+/-! ### the two optimisation phases only ever do what the contract allows -/
 
 theorem replacePhase_spec (cfg : Cfg) (selfMin : Rat) (step : Step) (m : List Posting) (lv : Locals)
     (tr : Trace) :
-    ∃ d, ((replacePhase cfg selfMin step m lv tr).1 ++ d).Perm m ∧
-      (replacePhase cfg selfMin step m lv tr).1.Sublist m ∧ d.Sublist m ∧
-      (∀ p ∈ d, p.score ≤ replaceThreshold cfg lv) ∧
+    ∃ d, Shrinks (replaceThreshold cfg lv) (replacePhase cfg selfMin step m lv tr).1 d m ∧
       ((replacePhase cfg selfMin step m lv tr).2.1.minscore = lv.minscore ∨
         (replacePhase cfg selfMin step m lv tr).2.1.minscore = selfMin) ∧
       ((replacePhase cfg selfMin step m lv tr).2.1.usequality = true →
         lv.usequality = true ∨ cfg.useFinal = false) ∧
       ((replacePhase cfg selfMin step m lv tr).2.2.2 = true →
         (replacePhase cfg selfMin step m lv tr).1 = []) := by
-  have triv : ∃ d : List Posting, (m ++ d).Perm m ∧ m.Sublist m ∧ d.Sublist m ∧
-      (∀ p ∈ d, p.score ≤ replaceThreshold cfg lv) :=
-    ⟨[], by simp, List.Sublist.refl _, List.nil_sublist _, by simp⟩
   unfold replacePhase
   by_cases h1 : (cfg.replace != 0) = true
   · simp only [h1, if_true]
     by_cases h2 : (lv.replacecounter == 0 || selfMin != lv.minscore) = true
     · simp only [h2, if_true]
-      obtain ⟨d, hp, hd, hs, hds⟩ := dropMasked_split (replaceThreshold cfg lv) step.mask m
+      obtain ⟨d, hs⟩ := dropMasked_shrinks (replaceThreshold cfg lv) step.mask m
       by_cases h3 : (dropMasked (replaceThreshold cfg lv) step.mask m).isEmpty = true
       · simp only [h3, if_true]
-        refine ⟨d, hp, hs, hds, hd, by simp, fun h => Or.inl h, fun _ => ?_⟩
+        refine ⟨d, hs, by simp, fun h => Or.inl h, fun _ => ?_⟩
         simpa using h3
       · simp only [h3]
-        refine ⟨d, hp, hs, hds, hd, ?_, ?_, by simp⟩
+        refine ⟨d, hs, ?_, ?_, by simp⟩
         · by_cases h4 : (selfMin != lv.minscore) = true
           · simp [h4]
           · simp [h4]
@@ -329,27 +451,76 @@ theorem replacePhase_spec (cfg : Cfg) (selfMin : Rat) (step : Step) (m : List Po
           · simp [h4, useBlockQuality] at hu
             exact hu.1.2
     · simp only [h2]
-      obtain ⟨d, hp, hs, hds, hd⟩ := triv
-      exact ⟨d, hp, hs, hds, hd, Or.inl rfl, fun h => Or.inl h, by simp⟩
+      exact ⟨[], Shrinks.refl _ m, Or.inl rfl, fun h => Or.inl h, by simp⟩
   · simp only [h1]
-    obtain ⟨d, hp, hs, hds, hd⟩ := triv
-    exact ⟨d, hp, hs, hds, hd, Or.inl rfl, fun h => Or.inl h, by simp⟩
+    exact ⟨[], Shrinks.refl _ m, Or.inl rfl, fun h => Or.inl h, by simp⟩
 
 theorem skipPhase_spec (step : Step) (m : List Posting) (lv : Locals) (tr : Trace) :
-    ∃ d, d ++ (skipPhase step m lv tr).1 = m ∧ (∀ p ∈ d, lv.usequality = true ∧ p.score ≤ lv.minscore) := by
+    ∃ d thr, Shrinks thr (skipPhase step m lv tr).1 d m ∧
+      (thr = 0 ∨ (lv.usequality = true ∧ thr = lv.minscore)) := by
   unfold skipPhase
-  by_cases h : (lv.usequality && lv.checkquality) = true
+  by_cases h : (lv.usequality && lv.checkquality && lv.minscore != 0) = true
   · simp only [h, if_true]
-    obtain ⟨d, hd, hs⟩ := skipDrop_split lv.minscore step.skip m
-    refine ⟨d, hd, fun p hp => ⟨?_, hs p hp⟩⟩
-    simp only [Bool.and_eq_true] at h; exact h.1
+    simp only [Bool.and_eq_true, bne_iff_ne, ne_eq] at h
+    obtain ⟨d1, hs1⟩ := skipDrop_shrinks lv.minscore h.2 step.skip m
+    obtain ⟨d2, hs2⟩ := dropMasked_shrinks lv.minscore step.skipMask (skipDrop lv.minscore step.skip m).1
+    exact ⟨d1 ++ d2, lv.minscore, hs2.trans hs1, Or.inr ⟨h.1.1, rfl⟩⟩
   · simp only [h]
-    exact ⟨[], by simp⟩
+    exact ⟨[], 0, Shrinks.refl 0 m, Or.inl rfl⟩
+
+/-! ### pending postings whose score was lowered -/
+
+/-- A pending posting never scores above its original score, and if it scores below, the heap is
+    full of hits that score at least the original score (and there is no final hook). -/
+def PendOK (cfg : Cfg) (items : List Hit) (p : Posting) : Prop :=
+  p.score ≤ p.orig ∧ (p.score = p.orig ∨ (cfg.useFinal = false ∧ FullBound cfg.limit items p.orig))
+
+theorem PendOK.mono {cfg : Cfg} {items items' : List Hit} {p : Posting} (h : PendOK cfg items p)
+    (hm : ∀ b, FullBound cfg.limit items b → FullBound cfg.limit items' b) : PendOK cfg items' p := by
+  obtain ⟨h1, h2⟩ := h
+  refine ⟨h1, ?_⟩
+  rcases h2 with h2 | ⟨h2, h3⟩
+  · exact Or.inl h2
+  · exact Or.inr ⟨h2, hm _ h3⟩
+
+theorem origP_of_eq {p : Posting} (h : p.score = p.orig) : p.origP = p := by
+  cases p; simp_all [Posting.origP]
+
+theorem Shrinks.pendOK {cfg : Cfg} {items : List Hit} {thr : Rat} {m' d m : List Posting}
+    (hs : Shrinks thr m' d m) (hthr : ThrOK cfg.limit items thr) (hf : thr ≠ 0 → cfg.useFinal = false)
+    (hm : ∀ p ∈ m, PendOK cfg items p) :
+    (∀ q ∈ m', PendOK cfg items q) ∧
+    (∀ q ∈ d, cfg.useFinal = false ∧ FullBound cfg.limit items q.orig) := by
+  have key : ∀ q p, p ∈ m → DescOf thr q p → p.score ≤ thr → thr ≠ 0 →
+      cfg.useFinal = false ∧ FullBound cfg.limit items q.orig := by
+    intro q p hp hd hle hne
+    refine ⟨hf hne, ?_⟩
+    rw [hd.2.1]
+    obtain ⟨h1, h2⟩ := hm p hp
+    rcases h2 with h2 | ⟨_, h2⟩
+    · rcases hthr with h0 | hfb
+      · exact absurd h0 hne
+      · exact hfb.mono (by rw [← h2]; exact hle)
+    · exact h2
+  constructor
+  · intro q hq
+    obtain ⟨p, hp, hd⟩ := hs.kept q hq
+    obtain ⟨h1, h2⟩ := hm p hp
+    refine ⟨?_, ?_⟩
+    · rw [hd.2.1]; exact Rat.le_trans hd.2.2.2.1 h1
+    · rcases hd.2.2.2.2 with rfl | ⟨hle, hne⟩
+      · exact h2
+      · exact Or.inr (key q p hp hd hle hne)
+  · intro q hq
+    obtain ⟨p, hp, hd, hle, hne⟩ := hs.dropped q hq
+    exact key q p hp hd hle hne
 
 def futOf (off : Nat) (m : List Posting) : List Nat := m.map fun p => off + p.doc
 
-theorem futOf_sublist {off : Nat} {a b : List Posting} (h : a.Sublist b) : (futOf off a).Sublist (futOf off b) :=
-  h.map _
+theorem futOf_sublist {off : Nat} {a b : List Posting} (h : (a.map (·.doc)).Sublist (b.map (·.doc))) :
+    (futOf off a).Sublist (futOf off b) := by
+  have := h.map (fun d => off + d)
+  simpa [futOf, List.map_map, Function.comp_def] using this
 
 theorem toHit_doc (cfg : Cfg) (final : Nat → Rat → Rat) (off : Nat) (p : Posting) :
     (toHit cfg final off p).doc = off + p.doc := rfl
@@ -374,36 +545,56 @@ def keepP (keep : Nat → Bool) (off : Nat) (p : Posting) : Bool := keep (off + 
 def keptMap (cfg : Cfg) (final : Nat → Rat → Rat) (keep : Nat → Bool) (off : Nat) (l : List Posting) : List Hit :=
   (l.filter (keepP keep off)).map (toHit cfg final off)
 
-theorem keptMap_nil (cfg : Cfg) (final : Nat → Rat → Rat) (keep : Nat → Bool) (off : Nat) :
-    keptMap cfg final keep off [] = [] := rfl
+/-- The same with every posting at its original score: what an exhaustive search sees. -/
+def keptO (cfg : Cfg) (final : Nat → Rat → Rat) (keep : Nat → Bool) (off : Nat) (l : List Posting) : List Hit :=
+  keptMap cfg final keep off (l.map Posting.origP)
 
-theorem keptMap_append (cfg : Cfg) (final : Nat → Rat → Rat) (keep : Nat → Bool) (off : Nat)
+theorem keptO_nil (cfg : Cfg) (final : Nat → Rat → Rat) (keep : Nat → Bool) (off : Nat) :
+    keptO cfg final keep off [] = [] := rfl
+
+theorem keptO_append (cfg : Cfg) (final : Nat → Rat → Rat) (keep : Nat → Bool) (off : Nat)
     (a b : List Posting) :
-    keptMap cfg final keep off (a ++ b) = keptMap cfg final keep off a ++ keptMap cfg final keep off b := by
-  simp [keptMap]
+    keptO cfg final keep off (a ++ b) = keptO cfg final keep off a ++ keptO cfg final keep off b := by
+  simp [keptO, keptMap]
 
-theorem keptMap_cons_pos (cfg : Cfg) (final : Nat → Rat → Rat) (keep : Nat → Bool) (off : Nat)
+theorem keptO_cons_pos (cfg : Cfg) (final : Nat → Rat → Rat) (keep : Nat → Bool) (off : Nat)
     (p : Posting) (l : List Posting) (h : keep (off + p.doc) = true) :
-    keptMap cfg final keep off (p :: l) = toHit cfg final off p :: keptMap cfg final keep off l := by
-  simp [keptMap, keepP, h]
+    keptO cfg final keep off (p :: l) = toHit cfg final off p.origP :: keptO cfg final keep off l := by
+  simp [keptO, keptMap, keepP, Posting.origP, h]
 
-theorem keptMap_cons_neg (cfg : Cfg) (final : Nat → Rat → Rat) (keep : Nat → Bool) (off : Nat)
+theorem keptO_cons_neg (cfg : Cfg) (final : Nat → Rat → Rat) (keep : Nat → Bool) (off : Nat)
     (p : Posting) (l : List Posting) (h : keep (off + p.doc) = false) :
-    keptMap cfg final keep off (p :: l) = keptMap cfg final keep off l := by
-  simp [keptMap, keepP, h]
+    keptO cfg final keep off (p :: l) = keptO cfg final keep off l := by
+  simp [keptO, keptMap, keepP, Posting.origP, h]
 
-theorem keptMap_perm (cfg : Cfg) (final : Nat → Rat → Rat) (keep : Nat → Bool) (off : Nat)
-    {a b : List Posting} (h : a.Perm b) :
-    (keptMap cfg final keep off a).Perm (keptMap cfg final keep off b) :=
+theorem keptO_perm (cfg : Cfg) (final : Nat → Rat → Rat) (keep : Nat → Bool) (off : Nat)
+    {a b : List Posting} (h : (a.map Posting.origP).Perm (b.map Posting.origP)) :
+    (keptO cfg final keep off a).Perm (keptO cfg final keep off b) :=
   (h.filter _).map _
 
-theorem mem_keptMap {cfg : Cfg} {final : Nat → Rat → Rat} {keep : Nat → Bool} {off : Nat}
-    {l : List Posting} {x : Hit} (hx : x ∈ keptMap cfg final keep off l) :
-    ∃ p ∈ l, x = toHit cfg final off p := by
-  obtain ⟨p, hp, rfl⟩ := List.mem_map.mp hx
-  exact ⟨p, (List.mem_filter.mp hp).1, rfl⟩
+theorem mem_keptO {cfg : Cfg} {final : Nat → Rat → Rat} {keep : Nat → Bool} {off : Nat}
+    {l : List Posting} {x : Hit} (hx : x ∈ keptO cfg final keep off l) :
+    ∃ p ∈ l, x = toHit cfg final off p.origP := by
+  obtain ⟨q, hq, rfl⟩ := List.mem_map.mp hx
+  obtain ⟨p, hp, rfl⟩ := List.mem_map.mp (List.mem_filter.mp hq).1
+  exact ⟨p, hp, rfl⟩
 
-/-- The loop of one segment keeps the invariant and loses nothing but losers. -/
+theorem keptO_fresh (cfg : Cfg) (final : Nat → Rat → Rat) (keep : Nat → Bool) (off : Nat)
+    (l : List Posting) (h : ∀ p ∈ l, p.orig = p.score) :
+    keptO cfg final keep off l = keptMap cfg final keep off l := by
+  have : l.map Posting.origP = l := by
+    conv => rhs; rw [← List.map_id l]
+    exact List.map_congr_left fun p hp => origP_of_eq (h p hp).symm
+  rw [keptO, this]
+
+theorem Shrinks.keptO_perm {thr : Rat} {m' d m : List Posting} (hs : Shrinks thr m' d m)
+    (cfg : Cfg) (final : Nat → Rat → Rat) (keep : Nat → Bool) (off : Nat) :
+    (keptO cfg final keep off m).Perm (keptO cfg final keep off m' ++ keptO cfg final keep off d) := by
+  rw [← keptO_append]
+  exact (WM.Collect.keptO_perm cfg final keep off (by simpa using hs.perm)).symm
+
+/-- The loop of one segment keeps the invariant and loses nothing but losers — where "nothing" is
+    measured at the *original* scores, whatever the matcher lowered on the way. -/
 theorem matchesLoop_gen {σ : Type} (cfg : Cfg) (final : Nat → Rat → Rat) (topOf : σ → TopState)
     (consume : σ → Nat → Posting → Except Err σ) (keep : Nat → Bool)
     (hfc : FilterCollects cfg final topOf consume keep)
@@ -414,28 +605,28 @@ theorem matchesLoop_gen {σ : Type} (cfg : Cfg) (final : Nat → Rat → Rat) (t
       ThrOK cfg.limit (topOf c).items (topOf c).minscore →
       ThrOK cfg.limit (topOf c).items lv.minscore →
       (lv.usequality = true → cfg.useFinal = false) →
-      (∀ p ∈ m, 0 < p.score) →
       (futOf off m ++ later).Pairwise (· < ·) →
+      (∀ p ∈ m, PendOK cfg (topOf c).items p) →
       ∃ c' sched' tr' losers',
         matchesLoop cfg consume (fun c => (topOf c).minscore) off sched m lv c tr
           = .ok (c', sched', tr') ∧
         Inv cfg.limit later (topOf c') losers' ∧ ThrOK cfg.limit (topOf c').items (topOf c').minscore ∧
         ((topOf c').items ++ losers').Perm
-          ((topOf c).items ++ losers ++ keptMap cfg final keep off m) := by
+          ((topOf c).items ++ losers ++ keptO cfg final keep off m) := by
   intro n
   induction n using Nat.strongRecOn with
   | _ n ih =>
-    intro m hmn sched lv c tr losers hinv hmin hloc huse hpos hasc
+    intro m hmn sched lv c tr losers hinv hmin hloc huse hasc hpend
     rw [matchesLoop]
     by_cases hem : m.isEmpty = true
     · rw [if_pos hem]
       have : m = [] := by simpa using hem
       subst this
-      refine ⟨c, sched, tr, losers, rfl, hinv.mono (by simp [futOf]), hmin, by simp [keptMap_nil]⟩
+      refine ⟨c, sched, tr, losers, rfl, hinv.mono (by simp [futOf]), hmin, by simp [keptO_nil]⟩
     · rw [if_neg hem]
       dsimp only
       -- replace phase
-      obtain ⟨d1, hp1, hs1, hds1, hd1, hmin1, huse1, hbrk⟩ :=
+      obtain ⟨d1, hsh1, hmin1, huse1, hbrk⟩ :=
         replacePhase_spec cfg (topOf c).minscore (sched.headD Step.none) m lv tr
       generalize hr : replacePhase cfg (topOf c).minscore (sched.headD Step.none) m lv tr = r at *
       have hthr1 : ThrOK cfg.limit (topOf c).items (replaceThreshold cfg lv) := by
@@ -443,40 +634,40 @@ theorem matchesLoop_gen {σ : Type} (cfg : Cfg) (final : Nat → Rat → Rat) (t
         split
         · exact Or.inl rfl
         · exact hloc
-      have hmemfut : ∀ p ∈ m, (toHit cfg final off p).doc ∈ futOf off m ++ later := by
-        intro p hp
-        apply List.mem_append_left
-        exact List.mem_map.mpr ⟨p, hp, rfl⟩
-      have hinv1 : Inv cfg.limit (futOf off m ++ later) (topOf c) (losers ++ keptMap cfg final keep off d1) := by
-        apply hinv.absorb hthr1
-        intro x hx
-        obtain ⟨p, hp, rfl⟩ := mem_keptMap hx
-        have hpm := hds1.subset hp
-        have hsc := hd1 p hp
-        have hps := hpos p hpm
-        unfold replaceThreshold at hsc ⊢
+      have hnf1 : replaceThreshold cfg lv ≠ 0 → cfg.useFinal = false := by
+        intro hne
+        unfold replaceThreshold at hne
         by_cases hf : (cfg.useFinal || !lv.supports) = true
-        · simp only [hf, if_true] at hsc; grind
-        · have hf' : cfg.useFinal = false := by
-            simp only [Bool.or_eq_true, not_or, Bool.not_eq_true] at hf; exact hf.1
-          simp only [hf] at hsc ⊢
-          rw [toHit_score_nofinal cfg final off p hf']
-          exact ⟨hsc, hps, hmemfut p hpm⟩
-      have hperm1 : (keptMap cfg final keep off m).Perm (keptMap cfg final keep off r.1 ++ keptMap cfg final keep off d1) := by
-        rw [← keptMap_append]
-        exact (keptMap_perm cfg final keep off hp1).symm
+        · simp [hf] at hne
+        · simp only [Bool.or_eq_true, not_or, Bool.not_eq_true] at hf; exact hf.1
+      obtain ⟨hpend1, hdrop1⟩ := hsh1.pendOK hthr1 hnf1 hpend
+      have hdocfut : ∀ q p : Posting, p ∈ m → q.doc = p.doc →
+          (toHit cfg final off q.origP).doc ∈ futOf off m ++ later := by
+        intro q p hp hqp
+        apply List.mem_append_left
+        exact List.mem_map.mpr ⟨p, hp, by simp [toHit_doc, Posting.origP, hqp]⟩
+      have hinv1 : Inv cfg.limit (futOf off m ++ later) (topOf c) (losers ++ keptO cfg final keep off d1) := by
+        apply hinv.absorb
+        intro x hx
+        obtain ⟨q, hq, rfl⟩ := mem_keptO hx
+        obtain ⟨hf', hfb⟩ := hdrop1 q hq
+        obtain ⟨p, hp, hd, _⟩ := hsh1.dropped q hq
+        refine ⟨?_, hdocfut q p hp hd.1⟩
+        rw [toHit_score_nofinal cfg final off _ hf']
+        exact hfb
+      have hperm1 := hsh1.keptO_perm cfg final keep off
       by_cases hb : r.2.2.2 = true
       · rw [if_pos hb]
         have hr1 : r.1 = [] := hbrk hb
-        refine ⟨c, sched.tail, r.2.2.1, losers ++ keptMap cfg final keep off d1, rfl,
+        refine ⟨c, sched.tail, r.2.2.1, losers ++ keptO cfg final keep off d1, rfl,
           hinv1.mono (fun g hg => List.mem_append_right _ hg), hmin, ?_⟩
         rw [hr1] at hperm1
-        rw [keptMap_nil, List.nil_append] at hperm1
+        rw [keptO_nil, List.nil_append] at hperm1
         rw [← List.append_assoc]
         exact List.Perm.append_left _ hperm1.symm
       · rw [if_neg hb]
         -- skip phase
-        obtain ⟨d2, hd2eq, hd2⟩ := skipPhase_spec (sched.headD Step.none) r.1 r.2.1 r.2.2.1
+        obtain ⟨d2, thr2, hsh2, hthr2c⟩ := skipPhase_spec (sched.headD Step.none) r.1 r.2.1 r.2.2.1
         generalize hs : skipPhase (sched.headD Step.none) r.1 r.2.1 r.2.2.1 = s at *
         have huse2 : r.2.1.usequality = true → cfg.useFinal = false := by
           intro h
@@ -487,110 +678,166 @@ theorem matchesLoop_gen {σ : Type} (cfg : Cfg) (final : Nat → Rat → Rat) (t
           rcases hmin1 with h | h
           · rw [h]; exact hloc
           · rw [h]; exact hmin
-        have hs1sub : s.1.Sublist m := by
-          have : s.1.Sublist r.1 := by rw [← hd2eq]; exact List.sublist_append_right _ _
-          exact this.trans hs1
-        have hd2sub : d2.Sublist m := by
-          have : d2.Sublist r.1 := by rw [← hd2eq]; exact List.sublist_append_left _ _
-          exact this.trans hs1
-        have hinv2 : Inv cfg.limit (futOf off m ++ later) (topOf c) (losers ++ keptMap cfg final keep off d1 ++ keptMap cfg final keep off d2) := by
-          apply hinv1.absorb hloc1
+        have hthr2 : ThrOK cfg.limit (topOf c).items thr2 := by
+          rcases hthr2c with h | ⟨_, h⟩
+          · exact Or.inl h
+          · rw [h]; exact hloc1
+        have hnf2 : thr2 ≠ 0 → cfg.useFinal = false := by
+          intro hne
+          rcases hthr2c with h | ⟨hu, _⟩
+          · exact absurd h hne
+          · exact huse2 hu
+        obtain ⟨hpend2, hdrop2⟩ := hsh2.pendOK hthr2 hnf2 hpend1
+        have hdocs : (s.1.map (·.doc)).Sublist (m.map (·.doc)) := hsh2.docs.trans hsh1.docs
+        have hmem1 : ∀ p ∈ r.1, ∃ p0 ∈ m, p.doc = p0.doc := by
+          intro p hp
+          obtain ⟨p0, hp0, hd⟩ := hsh1.kept p hp
+          exact ⟨p0, hp0, hd.1⟩
+        have hinv2 : Inv cfg.limit (futOf off m ++ later) (topOf c)
+            (losers ++ keptO cfg final keep off d1 ++ keptO cfg final keep off d2) := by
+          apply hinv1.absorb
           intro x hx
-          obtain ⟨p, hp, rfl⟩ := mem_keptMap hx
-          have hpm := hd2sub.subset hp
-          obtain ⟨hu, hsc⟩ := hd2 p hp
-          rw [toHit_score_nofinal cfg final off p (huse2 hu)]
-          exact ⟨hsc, hpos p hpm, hmemfut p hpm⟩
-        have hperm2 : (keptMap cfg final keep off m).Perm (keptMap cfg final keep off d1 ++ keptMap cfg final keep off d2 ++ keptMap cfg final keep off s.1) := by
+          obtain ⟨q, hq, rfl⟩ := mem_keptO hx
+          obtain ⟨hf', hfb⟩ := hdrop2 q hq
+          obtain ⟨p, hp, hd, _⟩ := hsh2.dropped q hq
+          obtain ⟨p0, hp0, hpp0⟩ := hmem1 p hp
+          refine ⟨?_, hdocfut q p0 hp0 (hd.1.trans hpp0)⟩
+          rw [toHit_score_nofinal cfg final off _ hf']
+          exact hfb
+        have hperm2 : (keptO cfg final keep off m).Perm
+            (keptO cfg final keep off d1 ++ keptO cfg final keep off d2 ++ keptO cfg final keep off s.1) := by
           refine hperm1.trans ?_
-          have : keptMap cfg final keep off r.1 = keptMap cfg final keep off d2 ++ keptMap cfg final keep off s.1 := by
-            rw [← hd2eq, keptMap_append]
-          rw [this]
+          refine ((hsh2.keptO_perm cfg final keep off).append_right _).trans ?_
           refine (List.perm_append_comm).trans ?_
           rw [List.append_assoc]
+          exact List.Perm.append_left _ List.perm_append_comm
         split
         · next hs1 =>
           refine ⟨c, sched.tail, s.2, _, rfl, hinv2.mono (fun g hg => List.mem_append_right _ hg), hmin, ?_⟩
           rw [hs1] at hperm2
-          rw [keptMap_nil, List.append_nil] at hperm2
+          rw [keptO_nil, List.append_nil] at hperm2
           rw [List.append_assoc, List.append_assoc]
           refine List.Perm.append_left _ (List.Perm.append_left _ ?_)
           exact hperm2.symm
         · next p rest hs1 =>
           have hsubfut : (futOf off (p :: rest) ++ later).Sublist (futOf off m ++ later) := by
-            rw [← hs1]; exact (futOf_sublist hs1sub).append_right later
+            rw [← hs1]; exact (futOf_sublist hdocs).append_right later
           have hasc' : (futOf off (p :: rest) ++ later).Pairwise (· < ·) := hasc.sublist hsubfut
           have hrl : rest.length < n := by
-            have := hs1sub.length_le
+            have := hdocs.length_le
             rw [hs1] at this
-            simp only [List.length_cons] at this
+            simp only [List.length_map, List.length_cons] at this
             omega
-          have hpos' : ∀ q ∈ rest, 0 < q.score := fun q hq =>
-            hpos q (hs1sub.subset (by rw [hs1]; exact List.mem_cons_of_mem _ hq))
           have hasc'' : (futOf off rest ++ later).Pairwise (· < ·) := by
             simp only [futOf, List.map_cons, List.cons_append] at hasc'
             exact List.Pairwise.of_cons hasc'
-          rw [hs1] at hperm2
-          by_cases hkeep : keep (off + p.doc) = true
-          · -- the hit goes to `_collect`
-            have hinv3 : Inv cfg.limit ((toHit cfg final off p).doc :: (futOf off rest ++ later)) (topOf c)
-                (losers ++ keptMap cfg final keep off d1 ++ keptMap cfg final keep off d2) :=
-              hinv2.mono (fun g hg => hsubfut.subset (by simpa [futOf, toHit_doc] using hg))
-            have hfut : ∀ g ∈ futOf off rest ++ later, (toHit cfg final off p).doc < g := by
-              intro g hg
-              simp only [futOf, List.map_cons, List.cons_append] at hasc'
-              exact List.rel_of_pairwise_cons hasc' (by simpa [futOf] using hg)
-            obtain ⟨t', losers', hc, hinv', hperm', hmin', hthr'⟩ :=
-              collect_inv hk (toHit cfg final off p) hinv3 hfut hmin
-            obtain ⟨c', hcons, htop⟩ := hfc.kept c off p t' hkeep hc
+          rw [hs1] at hperm2 hpend2
+          have hpp : PendOK cfg (topOf c).items p := hpend2 p (by simp)
+          have hprest : ∀ q ∈ rest, PendOK cfg (topOf c).items q :=
+            fun q hq => hpend2 q (List.mem_cons_of_mem _ hq)
+          have hsubrest : ∀ g ∈ futOf off rest ++ later, g ∈ futOf off m ++ later := by
+            intro g hg
+            refine hsubfut.subset ?_
+            simp only [futOf, List.map_cons, List.cons_append]
+            exact List.mem_cons_of_mem _ (by simpa [futOf] using hg)
+          have hpfut : (toHit cfg final off p.origP).doc ∈ futOf off m ++ later := by
+            refine hsubfut.subset ?_
+            simp [futOf, toHit_doc, Posting.origP]
+          -- the way on when the `TopCollector`'s heap is untouched and the hit `p` joins the losers
+          -- (or did not pass the filter: `extra = []`)
+          have untouched : ∀ (c' : σ) (extra : List Hit),
+              consume c off p = .ok c' → (topOf c').items = (topOf c).items →
+              (topOf c').minscore = (topOf c).minscore →
+              (∀ x ∈ extra, FullBound cfg.limit (topOf c).items x.score ∧ x.doc ∈ futOf off m ++ later) →
+              (keptO cfg final keep off (p :: rest)).Perm (extra ++ keptO cfg final keep off rest) →
+              ∃ c'' sched'' tr'' losers'',
+                (match consume c off p with
+                  | .error e => (.error e : Except Err (σ × List Step × Trace))
+                  | .ok c1 =>
+                    matchesLoop cfg consume (fun c => (topOf c).minscore) off sched.tail rest
+                      { r.2.1 with checkquality := nextFlag rest } c1 s.2) = .ok (c'', sched'', tr'') ∧
+                Inv cfg.limit later (topOf c'') losers'' ∧
+                ThrOK cfg.limit (topOf c'').items (topOf c'').minscore ∧
+                ((topOf c'').items ++ losers'').Perm
+                  ((topOf c).items ++ losers ++ keptO cfg final keep off m) := by
+            intro c' extra hcons hitems hminsc hextra hpermx
             simp only [hcons]
-            subst htop
+            have hinv3 : Inv cfg.limit (futOf off rest ++ later) (topOf c')
+                (losers ++ keptO cfg final keep off d1 ++ keptO cfg final keep off d2 ++ extra) :=
+              ((hinv2.absorb extra hextra).mono hsubrest).congr hitems
             obtain ⟨c'', sched'', tr'', losers'', hrun, hinv'', hmin'', hperm''⟩ :=
               ih rest.length hrl rest rfl sched.tail
                 { r.2.1 with checkquality := nextFlag rest }
-                c' s.2 losers' hinv' hmin' (hthr' _ hloc1) huse2 hpos' hasc''
+                c' s.2 _ hinv3 (by rw [hitems, hminsc]; exact hmin)
+                (by rw [hitems]; exact hloc1) huse2 hasc'' (by rw [hitems]; exact hprest)
             refine ⟨c'', sched'', tr'', losers'', hrun, hinv'', hmin'', ?_⟩
             refine hperm''.trans ?_
-            have hFp : keptMap cfg final keep off (p :: rest) = toHit cfg final off p :: keptMap cfg final keep off rest :=
-              keptMap_cons_pos cfg final keep off p rest hkeep
-            rw [hFp] at hperm2
-            have h1 : ((topOf c').items ++ losers' ++ keptMap cfg final keep off rest).Perm
-                ((toHit cfg final off p) :: ((topOf c).items ++ (losers ++ keptMap cfg final keep off d1 ++ keptMap cfg final keep off d2)) ++ keptMap cfg final keep off rest) :=
-              hperm'.append_right _
-            refine h1.trans ?_
-            have h2 : ((topOf c).items ++ losers ++ keptMap cfg final keep off m).Perm
-                ((topOf c).items ++ losers ++ (keptMap cfg final keep off d1 ++ keptMap cfg final keep off d2 ++ (toHit cfg final off p :: keptMap cfg final keep off rest))) :=
-              List.Perm.append_left _ hperm2
+            rw [hitems]
+            have h2 : ((topOf c).items ++ losers ++ keptO cfg final keep off m).Perm
+                ((topOf c).items ++ losers ++ (keptO cfg final keep off d1 ++ keptO cfg final keep off d2 ++
+                  (extra ++ keptO cfg final keep off rest))) :=
+              List.Perm.append_left _ (hperm2.trans (List.Perm.append_left _ hpermx))
             refine List.Perm.trans ?_ h2.symm
-            have h3 := (List.perm_middle (a := toHit cfg final off p)
-              (l₁ := (topOf c).items ++ (losers ++ (keptMap cfg final keep off d1 ++ keptMap cfg final keep off d2)))
-              (l₂ := keptMap cfg final keep off rest)).symm
-            simpa [List.append_assoc] using h3
+            simp [List.append_assoc]
+          by_cases hkeep : keep (off + p.doc) = true
+          · have hFp := keptO_cons_pos cfg final keep off p rest hkeep
+            rcases hpp.2 with heq | ⟨hfin, hfb⟩
+            · -- the hit goes to `_collect` with its original score
+              have hpo : p.origP = p := origP_of_eq heq
+              rw [hpo] at hFp
+              have hinv3 : Inv cfg.limit ((toHit cfg final off p).doc :: (futOf off rest ++ later)) (topOf c)
+                  (losers ++ keptO cfg final keep off d1 ++ keptO cfg final keep off d2) :=
+                hinv2.mono (fun g hg => hsubfut.subset (by simpa [futOf, toHit_doc] using hg))
+              have hfut : ∀ g ∈ futOf off rest ++ later, (toHit cfg final off p).doc < g := by
+                intro g hg
+                simp only [futOf, List.map_cons, List.cons_append] at hasc'
+                exact List.rel_of_pairwise_cons hasc' (by simpa [futOf] using hg)
+              obtain ⟨t', losers', hc, hinv', hperm', hmin', hfb'⟩ :=
+                collect_inv hk (toHit cfg final off p) hinv3 hfut hmin
+              obtain ⟨c', hcons, htop⟩ := hfc.kept c off p t' hkeep hc
+              simp only [hcons]
+              subst htop
+              obtain ⟨c'', sched'', tr'', losers'', hrun, hinv'', hmin'', hperm''⟩ :=
+                ih rest.length hrl rest rfl sched.tail
+                  { r.2.1 with checkquality := nextFlag rest }
+                  c' s.2 losers' hinv' hmin' (hloc1.mono hfb') huse2 hasc''
+                  (fun q hq => (hprest q hq).mono hfb')
+              refine ⟨c'', sched'', tr'', losers'', hrun, hinv'', hmin'', ?_⟩
+              refine hperm''.trans ?_
+              rw [hFp] at hperm2
+              have h1 : ((topOf c').items ++ losers' ++ keptO cfg final keep off rest).Perm
+                  ((toHit cfg final off p) :: ((topOf c).items ++ (losers ++ keptO cfg final keep off d1 ++ keptO cfg final keep off d2)) ++ keptO cfg final keep off rest) :=
+                hperm'.append_right _
+              refine h1.trans ?_
+              have h2 : ((topOf c).items ++ losers ++ keptO cfg final keep off m).Perm
+                  ((topOf c).items ++ losers ++ (keptO cfg final keep off d1 ++ keptO cfg final keep off d2 ++ (toHit cfg final off p :: keptO cfg final keep off rest))) :=
+                List.Perm.append_left _ hperm2
+              refine List.Perm.trans ?_ h2.symm
+              have h3 := (List.perm_middle (a := toHit cfg final off p)
+                (l₁ := (topOf c).items ++ (losers ++ (keptO cfg final keep off d1 ++ keptO cfg final keep off d2)))
+                (l₂ := keptO cfg final keep off rest)).symm
+              simpa [List.append_assoc] using h3
+            · -- the matcher lowered the score of this posting: the full heap refuses it, as it
+              -- would refuse the original score
+              have hc : (topOf c).collect cfg.limit (toHit cfg final off p)
+                  = .ok { topOf c with total := (topOf c).total + 1 } :=
+                collect_refuse hk (topOf c) _ hfb (by
+                  rw [toHit_score_nofinal cfg final off p hfin]; exact hpp.1)
+              obtain ⟨c', hcons, htop⟩ := hfc.kept c off p _ hkeep hc
+              refine untouched c' [toHit cfg final off p.origP] hcons (by rw [htop]) (by rw [htop]) ?_
+                (by rw [hFp]; exact List.Perm.refl _)
+              intro x hx
+              have : x = toHit cfg final off p.origP := by simpa using hx
+              subst this
+              refine ⟨?_, hpfut⟩
+              rw [toHit_score_nofinal cfg final off _ hfin]
+              exact hfb
           · -- the hit is filtered out before it reaches the `TopCollector`
             have hkeep' : keep (off + p.doc) = false := by simpa using hkeep
             obtain ⟨c', hcons, htop⟩ := hfc.dropped c off p hkeep'
-            simp only [hcons]
-            have hinv3 : Inv cfg.limit (futOf off rest ++ later) (topOf c') (losers ++ keptMap cfg final keep off d1 ++ keptMap cfg final keep off d2) := by
-              rw [htop]
-              exact hinv2.mono (fun g hg => hsubfut.subset (by
-                simp only [futOf, List.map_cons, List.cons_append]
-                exact List.mem_cons_of_mem _ (by simpa [futOf] using hg)))
-            obtain ⟨c'', sched'', tr'', losers'', hrun, hinv'', hmin'', hperm''⟩ :=
-              ih rest.length hrl rest rfl sched.tail
-                { r.2.1 with checkquality := nextFlag rest }
-                c' s.2 (losers ++ keptMap cfg final keep off d1 ++ keptMap cfg final keep off d2) hinv3 (by rw [htop]; exact hmin)
-                (by rw [htop]; exact hloc1) huse2 hpos' hasc''
-            refine ⟨c'', sched'', tr'', losers'', hrun, hinv'', hmin'', ?_⟩
-            refine hperm''.trans ?_
-            rw [htop]
-            have hFp : keptMap cfg final keep off (p :: rest) = keptMap cfg final keep off rest :=
-              keptMap_cons_neg cfg final keep off p rest hkeep'
-            rw [hFp] at hperm2
-            have h2 : ((topOf c).items ++ losers ++ keptMap cfg final keep off m).Perm
-                ((topOf c).items ++ losers ++ (keptMap cfg final keep off d1 ++ keptMap cfg final keep off d2 ++ keptMap cfg final keep off rest)) :=
-              List.Perm.append_left _ hperm2
-            refine List.Perm.trans ?_ h2.symm
-            simp [List.append_assoc]
+            refine untouched c' [] hcons (by rw [htop]) (by rw [htop]) (by simp) ?_
+            rw [keptO_cons_neg cfg final keep off p rest hkeep']
+            simp
 
 theorem globalDocs_cons (s : Seg) (segs : List Seg) :
     globalDocs (s :: segs) = futOf s.off s.postings ++ globalDocs segs := by
@@ -609,6 +856,11 @@ theorem keptHits_cons (cfg : Cfg) (final : Nat → Rat → Rat) (keep : Nat → 
       keptMap cfg final keep s.off s.postings ++ keptHits cfg final keep segs := by
   simp [keptHits]
 
+/-- The postings a search starts from are at their original scores. -/
+def Fresh (segs : List Seg) : Prop := ∀ s ∈ segs, ∀ p ∈ s.postings, p.orig = p.score
+
+instance (segs : List Seg) : Decidable (Fresh segs) := by unfold Fresh; infer_instance
+
 /-- `Collector.run` over all segments keeps the invariant. -/
 theorem runSegs_gen {σ : Type} (cfg : Cfg) (final : Nat → Rat → Rat) (topOf : σ → TopState)
     (consume : σ → Nat → Posting → Except Err σ) (keep : Nat → Bool)
@@ -616,8 +868,8 @@ theorem runSegs_gen {σ : Type} (cfg : Cfg) (final : Nat → Rat → Rat) (topOf
     ∀ (segs : List Seg) (sched : List Step) (c : σ) (tr : Trace) (losers : List Hit),
       Inv cfg.limit (globalDocs segs) (topOf c) losers →
       ThrOK cfg.limit (topOf c).items (topOf c).minscore →
-      (∀ s ∈ segs, ∀ p ∈ s.postings, 0 < p.score) →
       (globalDocs segs).Pairwise (· < ·) →
+      Fresh segs →
       ∃ c' sched' tr' losers',
         runSegs cfg consume (fun c => (topOf c).minscore) segs sched c tr = .ok (c', sched', tr') ∧
         Inv cfg.limit [] (topOf c') losers' ∧
@@ -628,8 +880,9 @@ theorem runSegs_gen {σ : Type} (cfg : Cfg) (final : Nat → Rat → Rat) (topOf
     intro sched c tr losers hinv _ _ _
     exact ⟨c, sched, tr, losers, rfl, hinv.mono (by simp), by simp [keptHits]⟩
   | cons s segs ih =>
-    intro sched c tr losers hinv hmin hpos hasc
+    intro sched c tr losers hinv hmin hasc hfresh
     rw [globalDocs_cons] at hinv hasc
+    have hfs : ∀ p ∈ s.postings, p.orig = p.score := hfresh s (by simp)
     obtain ⟨c', sched', tr', losers', hrun, hinv', hmin', hperm'⟩ :=
       matchesLoop_gen cfg final topOf consume keep hfc hk s.off (globalDocs segs) s.postings.length
         s.postings rfl sched
@@ -637,11 +890,12 @@ theorem runSegs_gen {σ : Type} (cfg : Cfg) (final : Nat → Rat → Rat) (topOf
           usequality := useBlockQuality cfg s.supports, replacecounter := 0, checkquality := true }
         c { tr with supports := s.supports } losers hinv hmin hmin
         (by intro h; simp [useBlockQuality] at h; exact h.1.2)
-        (hpos s (by simp)) hasc
+        hasc (fun p hp => ⟨by rw [hfs p hp]; exact Rat.le_refl, Or.inl (hfs p hp).symm⟩)
+    rw [keptO_fresh cfg final keep s.off s.postings hfs] at hperm'
     obtain ⟨c'', sched'', tr'', losers'', hrun', hinv'', hperm''⟩ :=
       ih sched' c' tr' losers' hinv' hmin'
-        (fun s' hs' => hpos s' (List.mem_cons_of_mem _ hs'))
         (hasc.sublist (List.sublist_append_right _ _))
+        (fun s' hs' => hfresh s' (List.mem_cons_of_mem _ hs'))
     refine ⟨c'', sched'', tr'', losers'', ?_, hinv'', ?_⟩
     · simp only [runSegs, hrun, hrun']
     · refine hperm''.trans ?_
